@@ -219,34 +219,56 @@ def _contracts(F, R):
         doc = DOC[nm]
         sig = "%s(%s)" % (nm, ", ".join(re.sub(r"Eigen::|, 0>|const | &", "", str(p["t"])).replace(">", ">") for p in g["params"]))
         loc = F.loc(g)
-        I = Interp(F)
         mt = str(g["params"][0]["t"])
         real_in = "complex" not in mt.split(">")[0]
         m_word = (("m", "m", False, False, real_in),)
-        args = [("loc", I.new_loc(("mat", m_word)))]
-        for p in g["params"][1:]:
-            args.append(("loc", I.new_loc(("uninit",))))
-        try:
-            I.call(g, args)
-        except Undecided as ex:
-            R.soft_broken("%s: %s" % (sig, ex))
+        # value-dependent branches (fast paths for definite matrices ...) are explored both ways: one run per decision string
+        work, runs = [[]], []
+        failed = None
+        while work and len(runs) < 32:
+            dec = work.pop()
+            I = Interp(F)
+            I.decisions = dec
+            args = [("loc", I.new_loc(("mat", m_word)))]
+            for p in g["params"][1:]:
+                args.append(("loc", I.new_loc(("uninit",))))
+            try:
+                I.call(g, args)
+                runs.append((I, args))
+            except MA.NeedDecision:
+                work.append(dec + [False])
+                work.append(dec + [True])
+            except Undecided as ex:
+                failed = ex
+                break
+        if failed is not None or not runs:
+            R.soft_broken("%s: %s" % (sig, failed))
             continue
+        for I, args in runs:
+            _check_path(F, R, SF, I, args, g, nm, doc, sig, loc, m_word, sites, analysed)
+    R.analysed["entries"] = analysed
+
+
+def _check_path(F, R, SF, I, args, g, nm, doc, sig, loc, m_word, sites, analysed):
+    if I.path:
+        sig = "%s [path: %s]" % (sig, "; ".join(I.path))
+    for _once in (0,):
         outs = [I.store[a[1]] for a in args[1:]]
         analysed.append(dict(entry=sig, called_from=sites[:3], functions=sorted(set(x.split("::")[-1] for x in I.functions_seen)),
                              axioms=[a[2] for a in I.axioms],
                              outputs=[o[1].show() if o[0] == "vec" else show_word(o[1]) if o[0] == "mat" else o[0] for o in outs]))
         if len(I.axioms) != 1:
             R.soft_broken("%s: expected exactly one solver invocation, found %d" % (sig, len(I.axioms)))
-            continue
+            return
         ax_arg, ax_rhs, ax_txt = I.axioms[0]
         if ax_arg != m_word:
             R.fail("R1", sig, loc, "the solver is applied to %s, not to the input matrix" % show_word(ax_arg), key="R1|%s|arg" % sig)
-            continue
+            return
         vec = outs[0]
         mats = outs[1:]
         if vec[0] != "vec" or any(x[0] != "mat" for x in mats):
             R.fail("R1", sig, loc, "an output is never assigned (%s)" % ", ".join(o[0] for o in outs), key="R1|%s|unassigned" % sig)
-            continue
+            return
         v = vec[1]
         if nm == "fs_svd":
             prod = w_transpose(mats[0][1]) + v.diag_word() + mats[1][1]
@@ -260,12 +282,17 @@ def _contracts(F, R):
             for fct in a[1]:
                 if fct[0] == "d":
                     base_nonneg[fct[2]] = fct[2].startswith("sigma")
-        cases_of = lambda b: ("nonneg",) if base_nonneg.get(b) else ("neg", "nonneg")
+        def cases_of(b):
+            if base_nonneg.get(b) or I.base_sign.get(b) == "nonneg":
+                return ("nonneg",)
+            if I.base_sign.get(b) == "nonpos":
+                return ("neg",)           # x = 0 satisfies every identity that holds for x < 0 and x > 0 by continuity
+            return ("neg", "nonneg")
         try:
             ok, why = _words_equal(SF, lhs, rhs, cases_of)
         except Undecided as ex:
             R.soft_broken("%s: %s" % (sig, ex))
-            continue
+            return
         R.check("R1", ok, "%s: %s" % (sig, doc["form"]), loc,
                 "with the outputs as computed, the documented product is  %s  but the input matrix is  %s  (%s; %s)"
                 % (show_word(lhs), show_word(rhs), ax_txt, why), key="R1|%s" % sig,
@@ -295,12 +322,18 @@ def _contracts(F, R):
         # R4 order
         want = doc["order"]
         got = v.order
-        ok4 = got is not None and got[0] == want[0] and (got[1] == want[1] or (v.nonneg and set(got[1]) | set(want[1]) <= {"abs"}))
+        sign = "nonneg" if v.nonneg else (I.base_sign.get(v.base) if not v.fn else None)
+        if got is not None and got[1] != want[1] and {got[1], want[1]} == {(), ("abs",)}:
+            # order by value vs order by modulus: the same for non-negative entries, reversed for non-positive ones
+            if sign == "nonneg":
+                got = (got[0], want[1])
+            elif sign == "nonpos":
+                got = ("asc" if got[0] == "desc" else "desc", want[1])
+        ok4 = got is not None and got == want
         R.check("R4", ok4, "%s: %s by %s" % (sig, "ascending" if want[0] == "asc" else "descending", show_fn(want[1]) if want[1] else "value"), loc,
                 "the values are %s, documented: %s in %s" % (
                     "in no established order" if got is None else "%s in %s" % (got[0], show_fn(got[1]) or "value"),
                     want[0], show_fn(want[1]) or "value"), key="R4|%s" % sig)
-    R.analysed["entries"] = analysed
 
 
 def _call_sites(F, R):
